@@ -390,6 +390,13 @@ theorem welch_antisymmetric (m v n m' v' n' : Val) :
 
 /-! ### overlap variant -/
 
+/-- **overlap_path_iff_both_measures**: the overlap-corrected test is used exactly when the columns
+    are multiple-response and both overlap measures are present; with only one of them (or none)
+    the ordinary column test of `t_def` / `p_def` applies -/
+theorem overlap_path_iff_both_measures (mr ov vov : Bool) :
+    usesOverlapPath mr ov vov = true ↔ (mr = true ∧ ov = true ∧ vov = true) := by
+  cases mr <;> cases ov <;> cases vov <;> simp [usesOverlapPath]
+
 /-- **overlap_def**: for two different subvariables the overlap-corrected statistic is
     (p_b − p_a)/sqrt((1/df)(π_a(1−π_a) + π_b(1−π_b) + 2π_aπ_b − 2π_ab)) with df = N_a + N_b − N_ab,
     π = selected / valid overlap bases, and p a Student-t tail with df − 2 degrees of freedom -/
